@@ -103,14 +103,14 @@ func TestVerifC03(t *testing.T) {
 	vc := verifStart(t, "C03", "reconnect")
 	defer vc.Finish()
 	verifE1SelfCheck(t)
-	total := vc.N(700, 20000)
+	total := vc.N(700, 6000)
 	for i := 0; i < total; i++ {
 		if !vc.Mine(i) {
 			continue
 		}
 		verifC03Case(vc, i, -1, i)
 	}
-	nSys := vc.N(8, 250)
+	nSys := vc.N(8, 80)
 	base := 1 << 20
 	idx := base
 	for s := 0; s < nSys; s++ {
